@@ -55,7 +55,11 @@ def pool():
             P.MetaVar(3, app_ctx_holes=(P.EVar(2),)),
             # a notation that binds x0 around its argument; a pending set-variable substitution (as plug under an ESubst)
             __import__('proof_generation.proofs.substitution', fromlist=['forall']).forall(0)(P.App(P.Symbol('f'), P.EVar(0))),
-            P.SSubst(P.MetaVar(1), P.SVar(0), P.Symbol('a'))]
+            P.SSubst(P.MetaVar(1), P.SVar(0), P.Symbol('a')),
+            # one pending substitution spelled twice: through a notation whose definition IS the substitution, and written
+            # out as the body of another substitution (equal modulo notation, different classes)
+            P.Notation('sub0', 2, P.ESubst(P.MetaVar(0), P.EVar(0), P.MetaVar(1)), '{0}[{1}/x0]')(P.MetaVar(2), P.Symbol('a')),
+            P.ESubst(P.ESubst(P.MetaVar(2), P.EVar(0), P.Symbol('a')), P.EVar(1), P.Symbol('f'))]
 
 
 LEMMAS = [('imp_refl', 1), ('bot_elim', 1), ('dneg_intro', 1), ('absurd', 2), ('peirce_bot', 1), ('and_l_imp', 2),
@@ -382,6 +386,56 @@ def graph_chunk(specs):
     return out
 
 
+MULTI_POOL = [('prop1',), ('lemma', 'imp_refl', (0,)), ('lemma', 'bot_elim', (0,)), ('ax', 0)]
+
+
+def multi_specs(maxlen: int):
+    """(claims, proofs): every list of 2..maxlen claims over the pool (repetitions allowed) x every order of their proofs"""
+    out = []
+    for n in range(2, maxlen + 1):
+        for claims in itertools.product(range(len(MULTI_POOL)), repeat=n):
+            for proofs in sorted(set(itertools.permutations(claims))):
+                out.append((claims, proofs))
+    return out
+
+
+def multi_chunk(specs):
+    """modules with several claims: whenever the toolkit serialises one (in whatever order it accepts the proofs), the checker,
+    which discharges claims in order, must accept the three files and discharge exactly the declared claims"""
+    from . import bridge
+    from proof_generation.proof import ProofExp
+    lib = make_lib(light=True)
+    h = par.harness()
+    out = {'evals': 0, 'accepted': 0, 'refused': 0, 'viol': []}
+    for claims, proofs in specs:
+        for opt in (False, True):
+            out['evals'] += 1
+            try:
+                cl = [build(MULTI_POOL[i], lib).conc for i in claims]
+                m = ProofExp(axioms=list(lib.get_axioms()), notations=[], claims=cl, proof_expressions=[build(MULTI_POOL[i], lib) for i in proofs])
+                g, c, p = pyrun.triple(pyrun.serialize_real(m, opt))
+            except Exception:  # noqa: BLE001
+                out['refused'] += 1
+                continue
+            out['accepted'] += 1
+            sig = {'kind': 'multi_claim_module_rejected', 'in_claim_order': claims == proofs, 'repeated_claim': len(set(claims)) < len(claims)}
+            what = f'claims {[str(x) for x in cl]} proved in order {list(proofs)} (claims are {list(claims)}), optimize={opt}'
+            if not h.verify(g, c, p):
+                r2 = rm.verify(g, c, p)
+                out['viol'].append((dict(sig, reason=r2[1] if r2[0] == 'REJECT' else r2[0]), None, f'checker rejects the module with {what}'))
+                break
+            r2 = rm.verify(g, c, p)
+            if r2[0] == 'REJECT':
+                out['viol'].append((dict(sig, kind='multi_claim_doc_machine_rejects', reason=r2[1]), None, f'documented machine rejects the module with {what}'))
+                break
+            if r2[0] in ('ACCEPT', 'MAYREJECT'):
+                jr = sorted(rm.show(t) for kk, t in r2[2].journal if kk == 'proved')
+                if len(jr) != len(cl):
+                    out['viol'].append((dict(sig, kind='multi_claim_wrong_count'), None, f'journal proves {jr}: module with {what}'))
+                    break
+    return out
+
+
 SHIPPED = [('proof_generation.proofs.propositional', 'Propositional'), ('proof_generation.proofs.small_theory', 'SmallTheory'),
            ('proof_generation.proofs.substitution', 'Substitution'), ('proof_generation.tautology', 'Tautology'),
            ('proof_generation.proofs.kore', 'KoreLemmas'), ('proof_generation.proofs.definedness', 'Definedness')]
@@ -434,6 +488,12 @@ def main(argv=None) -> int:
         agg['graph_modules'] = agg.get('graph_modules', 0) + out['evals']
         for sig, d, what in out['viol']:
             chk.violation(sig, {'signature': sig}, what)
+    # modules with several claims, proofs listed in every order
+    for out in par.pmap(multi_chunk, par.chunks(multi_specs(4 if thorough else 3), n)):
+        agg['multi_claim_modules'] = agg.get('multi_claim_modules', 0) + out['evals']
+        agg['multi_claim_accepted'] = agg.get('multi_claim_accepted', 0) + out['accepted']
+        for sig, d, what in out['viol']:
+            chk.violation(sig, {'signature': sig}, what)
     # level 0 + lemmas
     l0 = lemma_descs(5 if thorough else 4)
     ok0 = merge(chk, par.pmap(judge_chunk, [(ch, False) for ch in par.chunks(l0, n)]), agg)
@@ -469,6 +529,9 @@ def main(argv=None) -> int:
         for k in ('inst', 'dinst'):
             l1 += [(k, d, ((0, i),)) for i in (11, 17, 18)]
             l1 += [(k, d, m) for m in (((0, 17), (1, 3)), ((0, 3), (1, 17)), ((1, 18), (0, 17)), ((0, 18), (1, 11)))]
+    for d in (('prop1',), ('prop2',)):
+        for k in ('inst', 'dinst'):
+            l1 += [(k, d, ((0, 24), (1, 25))), (k, d, ((0, 25), (1, 24))), (k, d, ((1, 24), (0, 25)))]
     ok1 = merge(chk, par.pmap(judge_chunk, [(ch, True) for ch in par.chunks(l1, n)]), agg)
     levels.append(len(ok1))
     # level 2: accepted level-1 expressions, distinct conclusions only (same conclusion -> same futures for mp/inst/gen)
@@ -499,7 +562,8 @@ def main(argv=None) -> int:
     pyrun.cleanup()
     chk.set('states', len(ok0) + len(ok1) + len(ok2))
     chk.set('transitions', agg.get('evals', 0))
-    chk.set('traces_validated_against_impl', agg.get('modules_verified', 0) + agg.get('shipped_runs', 0) + agg.get('graph_modules', 0))
+    chk.set('traces_validated_against_impl', agg.get('modules_verified', 0) + agg.get('shipped_runs', 0) + agg.get('graph_modules', 0)
+            + agg.get('multi_claim_accepted', 0))
     chk.set('exhaustive', True)
     chk.set('accepted_expressions_per_level', levels)
     chk.set('detail', agg)
